@@ -14,6 +14,7 @@ Step ==
   /\ LET s == hist[l] IN
      CASE s.op = "srv" -> /\ SetServer([v |-> s.v, mode |-> s.mode]) /\ UNCHANGED <<cache, drift>>
        [] s.op = "age" -> /\ cache' = [cache EXCEPT !.fresh = FALSE] /\ UNCHANGED <<pvars, drift>>
+       [] s.op = "losesum" -> /\ cache' = [cache EXCEPT !.sum = 0] /\ UNCHANGED <<pvars, drift>>
        [] s.op = "inv" -> LET d == Decide(s.flags) IN
                           /\ Invocation(s.flags, [exit |-> s.exit, ran |-> s.ran])
                           /\ cache' = d.cache
